@@ -268,12 +268,13 @@ def check_rename_save(seed):
         return ('rename-write:' + type(e).__name__, 'write after renaming raised %s: %s' % (type(e).__name__, str(e)[:120]))
     got = xmlread.read(b.getvalue())
     bad = []
+    local_ids = set(n.get('id') for sc in got['scenes'] for n in sc['nodes'])
 
     def walk(x, path):
         if isinstance(x, dict):
             for k, v in x.items():
                 if k in ('geometry', 'light', 'camera', 'node', 'target', 'effect', 'controller') and isinstance(v, list) and len(v) == 2 and isinstance(v[1], bool):
-                    if not v[1]:
+                    if not v[1] and not (k == 'node' and v[0] in local_ids):
                         bad.append('%s.%s -> %s' % (path, k, v[0]))
                 else:
                     walk(v, path + '.' + str(k))
@@ -331,7 +332,14 @@ def run(ctx):
             else:
                 want = ('library=%s broken=0' % lib) if not broken else None     # a stuck root fails the whole scene
             ok = (a == want) if want is not None else a.startswith('scene-failed:')
-            if not ok and 'corr:retry' not in reported:
+            loaded_impl = set(x for x in a.split('library=')[1].split(' ')[0].split(',') if x) if 'library=' in a else set()
+            loaded_model = set(x for x in lib.split(',') if x)
+            if not ok and (loaded_model - loaded_impl) and 'graph-resolvable-not-loaded' not in reported:
+                # every reference of these nodes can be resolved (finite chain), yet the loader did not load them
+                reported.add('graph-resolvable-not-loaded')
+                ctx.violation('c07:graph-resolvable-not-loaded', 'nodes %s only refer to nodes that exist (no cycle), but the loader reports %r for %s (%s): resolution '
+                              'depends on the definition order' % (sorted(loaded_model - loaded_impl), a, c[0], c[1]), dict(kind='graph', defs=c[0], where=c[1], nest=c[2]))
+            elif not ok and 'corr:retry' not in reported:
                 reported.add('corr:retry')
                 # is it a property failure? cyclic graphs must terminate with an error, resolvable ones must load
                 ctx.violation('corr:retry', 'retry loop: loader gives %r, Pyc.Refs.loadNodes gives %r for %s (%s)' % (a, m, c[0], c[1]),
@@ -384,7 +392,19 @@ def replay(ctx, rep):
         a, d = graph_impl(defs, rep['where'], rep['nest'])
         pr = graph_oracle(defs, rep['where'], d)
         print('  loader: %s' % a)
-        return pr is not None
+        ids = set(i for i, _ in defs)
+        loadable = set()
+        changed = True
+        while changed:
+            changed = False
+            for i, refs in defs:
+                if i not in loadable and all(x in loadable for x in refs):
+                    loadable.add(i)
+                    changed = True
+        got = set(x for x in a.split('library=')[1].split(' ')[0].split(',') if x) if 'library=' in a else set()
+        if rep['where'] == 'scene' and loadable != ids:
+            return pr is not None
+        return pr is not None or bool(loadable - got)
     if k == 'dangling':
         kind, pat, exp = [x for x in DANGLE if x[0] == rep['which']][0]
         res = check_dangling(docgen.generate(rep['seed']), kind, pat, exp)
